@@ -18,7 +18,7 @@ CHECKS = {
                 "MonitorRequest/MonitorSelect, OperationResult/TransactResponse, errors through ResultFromError/"
                 "CheckOperationResults, DatabaseSchema from the full-type-space schema generator) in decoded canonical form; "
                 "oracle decode(encode(x)) == x (reflect.DeepEqual; schemas through every exported accessor plus stable "
-                "re-encoding). Non-trivial = value with >=1 optional member present and >=1 nested set/map, or a schema "
+                "re-encoding); the RFC error strings are compared exactly in both directions (wire string -> Go error type -> wire string; a string differing only in case is not that error). Non-trivial = value with >=1 optional member present and >=1 nested set/map, or a schema "
                 "with >=1 base-type constraint; distinct = hash of the structural signature (type, members present, "
                 "shapes of nested values / column type signature).",
         "assumptions": COMMON_ASSUMPTIONS + [
@@ -152,7 +152,7 @@ CHECKS = {
                 "to the row actually inserted), no stored uuid-typed value may still be a name, string columns holding the same text "
                 "are untouched, clashing names are rejected. TestC15API: Create() of 2-6 models in one call whose _uuid fields hold a symbolic "
                 "name, a real uuid or nothing, with references (by name or uuid) between them, in drawn order: every model becomes its own row, "
-                "names denote the rows inserted under them, real uuids are kept. Non-trivial = a name used in a collection, condition or mutation "
+                "names denote the rows inserted under them, real uuids are kept; names include hex-like, braced, urn: and upper-case spellings of uuids, and the operations the API produces must tag such a string as named-uuid unless it is the canonical 36-character form. TestC15Large: transactions of 257, 300 and 520 named inserts without explicit uuids: every insert gets its own uuid and references by the first and the last name reach those rows. Non-trivial = a name used in a collection, condition or mutation "
                 "position or before its definition; distinct = hash of (schema kinds, operation sequence).",
         "assumptions": COMMON_ASSUMPTIONS + [
             "a name is only offered for reference columns of the table of its insert (known finding cross-table-uuid); a set never "
@@ -216,7 +216,7 @@ CHECKS = {
                 "RowByModel/RowsByModels by uuid, by schema-index values and by client-index values return exactly what a scan returns; before that, "
                 "RowsByCondition with the values of every index of up to 4 rows - alone, and together with a _uuid condition naming the same or another row - must "
                 "select what a scan (refdb) selects, and must leave the indexes intact for the comparisons that follow; "
-                "values no row holds any more lead nowhere. Non-trivial = history with a batch in which an indexed value changes owner; "
+                "values no row holds any more lead nowhere. Between batches one third of the cases issue a checked write the cache has to refuse (Create or Update that would give a second row the values of a schema index of a cached row, the other columns fresh): it must fail and leave Rows(), every index and every lookup as they were. Non-trivial = history with a batch in which an indexed value changes owner; "
                 "distinct = hash of (index configuration, per-batch path/size/hand-over).",
         "assumptions": COMMON_ASSUMPTIONS + [
             "single-column indexes on set/map columns are not generated (the cache uses the value as a Go map key)",
@@ -258,7 +258,7 @@ CHECKS = {
                 "Mapper.GetRowData into a model pre-filled with sentinels, and -> model.CreateModel: every mapped field must come back equal "
                 "(sets as sets); with the default NewRow and after dropping drawn columns the absent columns keep their sentinels; NativeToOvs/"
                 "SetField with any other Go type and OvsToNative with a wire value of another kind (per column kind: ~10 wrong shapes) must "
-                "return an error. Non-trivial = >=1 collection/optional column with a non-default value; distinct = hash of the table's type signature.",
+                "return an error; CreateModel from a sparse or empty row still yields a model carrying the uuid; a model struct whose field for a drawn column has another Go type - including types the native value is assignable or convertible to (interface{}, a defined type over the same underlying type) - must be refused by the schema-driven type check. Non-trivial = >=1 collection/optional column with a non-default value; distinct = hash of the table's type signature.",
         "assumptions": COMMON_ASSUMPTIONS + [
             "integers are kept within +-2^53 (known finding int53); reals are finite; strings valid UTF-8",
             "a JSON number for an integer column is the designed decoding path (float64 -> int), not a type mismatch",
@@ -295,7 +295,7 @@ CHECKS = {
                 "every step from the second on: aggregated ForEachModelUpdate has old = first old and new = last new; ForEachRowUpdate is one "
                 "insert of the final row / one delete carrying the original row / one modify whose difference applied to the first old value "
                 "gives the last new value and names no column that is back to its original value; nothing at all (table absent from "
-                "GetUpdatedTables) if the row ends as it began or is inserted and deleted; GetModel/GetRow return the last state. Expected "
+                "GetUpdatedTables) if the row ends as it began or is inserted and deleted; GetModel/GetRow return the last state; a bystander row of the same table receives changes in between and must keep exactly its own net update whatever happens to the first row (also when that one cancels out). Expected "
                 "states come from the reference rules (refdb.ApplyMutation). Non-trivial = sequence of length >=3 or one that restores a "
                 "column; distinct = hash of (type signature, operation/mutator sequence).",
         "assumptions": COMMON_ASSUMPTIONS + ["only mutations the implementation supports are generated (see C03 tolerance classes)"],
@@ -314,7 +314,7 @@ CHECKS = {
                 "RowsByCondition with and without conditions) is mutated too: every path must still return the stored value. Event-handler "
                 "arguments are covered by C14. TestC13API does the same through a connected client (server, MonitorAll): List into []T and []*T, "
                 "WhereCache/Where(models)/WhereAny(...).List into both, Get, Cache().Table().Row/Rows; 1-3 mutations of returned models, then every path "
-                "must return the rows the database holds. Non-trivial = a mutation through a non-empty slice, map or "
+                "must return the rows the database holds; conditionals are reused for several reads (a later List on the same ConditionalAPI must not hand out memory an earlier one returned). Non-trivial = a mutation through a non-empty slice, map or "
                 "pointer; distinct = hash of (family, read path, write path, mutation kind).",
         "assumptions": COMMON_ASSUMPTIONS + [
             "RowsShallow is the documented read-only exception",
@@ -361,7 +361,7 @@ CHECKS = {
                 "and additional monitors alike. After every establishment and every transaction, for every monitor: "
                 "client.Cache().Table(t).Rows() projected on the monitored columns = Database.List of the server projected the same way "
                 "(no waiting: the server notifies before it replies), immediately after the issuer's own Transact too; all clients must "
-                "still be connected. evaluations = cases (each with up to ~100 cache/database comparisons). Non-trivial = a monitor established "
+                "still be connected. TestC01Long: one history long enough to exceed the 65536-entry event buffer of the cache while a registered handler is slow: the cache must keep following the database (dropping events is allowed, dropping updates is not). evaluations = cases (each with up to ~100 cache/database comparisons). Non-trivial = a monitor established "
                 "strictly inside the history with committed transactions after it; distinct = hash of (schema kinds, monitor "
                 "methods/positions/schedules, history length).",
         "assumptions": COMMON_ASSUMPTIONS + [
@@ -465,7 +465,7 @@ CHECKS = {
                 "transactions in order pi on refdb reproduces every count/uuid each client received and the final Database.List; every failed "
                 "transaction fails at some position of pi compatible with its client's order; closed forms: counters = sum of committed "
                 "deltas, each contested key has exactly one winner; the caching client's cache equals the database at the end; no race report "
-                "involving libovsdb code. TestC17MonitorWindow pins, with the server-side verif hook, a monitor set-up between 'monitors "
+                "involving libovsdb code. TestC17Tokens: 2-5 clients race to take 1-4 tokens with transactions that only delete (optionally after a select or a wait, so they look read-only at first) while monitoring peers acknowledge slowly: each token is taken by exactly one transaction, nobody gets an RPC error, every monitor is told of each deletion once. TestC17MonitorWindow pins, with the server-side verif hook, a monitor set-up between 'monitors "
                 "notified' and 'committed'. Non-trivial = run in which transactions of different clients overlapped in time at least "
                 "twice (measured by invocation/response timestamps); distinct = the observed order pi.",
         "assumptions": COMMON_ASSUMPTIONS + [
@@ -486,14 +486,14 @@ CHECKS = {
     "C18": {
         "procs": 8,
         "rule": "built with -race. The client talks to the server through the harness proxy, which can answer chosen methods with a JSON-RPC error "
-                "('unknown method' = what a server lacking the method says). TestC18Enumerated enumerates completely 23 ways an API call can fail "
+                "('unknown method' = what a server lacking the method says). TestC18Enumerated enumerates completely 26 ways an API call can fail "
                 "(Monitor with option errors / no tables / unknown table / unsupported method / cancelled context / not connected / refused by the "
                 "server / monitor_cond_since unknown and the monitor_cond fallback refused / both unknown and the monitor fallback refused / no monitor "
-                "method known; Transact answered with an RPC error, failing validation, on an unknown table, with "
-                "an expired context, not connected, rejected by the server; MonitorCancel; Echo against a mute server; Get miss; List with a "
+                "method known / a table that is already monitored / a notification the cache cannot apply arriving before the monitor reply; Transact answered with an RPC error, failing validation, on an unknown table, with "
+                "an expired context, not connected, rejected by the server; MonitorCancel refused; MonitorCancel with a notification the cache cannot apply in flight; Echo against a mute server; Get miss; List with a "
                 "wrong or non-pointer type; Where without models; Create of a foreign model) x 9 follow-up calls (Disconnect+Connect, "
                 "Close+Connect, Monitor, Transact, Get, Echo, List, and Get/List with context.Background(): a cache read on an idle connected client "
-                "must not need a deadline to return) x monitor present or not = 414 combinations: every call returns within "
+                "must not need a deadline to return) x monitor present or not = 468 combinations: every call returns within "
                 "20 s (bounded contexts allow 2 s) and an epilogue Close, Connect, Echo, Monitor, Get of a seeded row succeeds. TestC18Concurrent: 2-4 "
                 "goroutines run drawn lists of 4-14 calls (Get, List, Where.List, WhereCache.List, Cache().Rows, Transact, Monitor, MonitorCancel, "
                 "Echo, Disconnect, Connect, Close) on one client, with and without reconnect, while a writer commits transactions that keep "
@@ -519,8 +519,8 @@ CHECKS = {
     "C20": {
         "rule": "schemas from the full type space (every atomic type as key/value, all min/max classes, enums of every atomic type on scalar, optional and "
                 "set columns with hostile enum strings such as '802.1q', 'a b', quotes and backslashes, references, constraints) plus naming "
-                "stress (columns and tables needing initialism / camel-case / underscore handling). TestC20 (in-process, hundreds per run): the "
-                "library generator formats every table and the db model twice (byte-identical), output parses, TYPE-CHECKS with go/types against "
+                "stress (columns and tables needing initialism / camel-case / underscore handling). Tables carry up to four string-enum columns. TestC20 (in-process, hundreds per run): the "
+                "library generator formats every table and the db model four times (byte-identical), output parses, TYPE-CHECKS with go/types against "
                 "the real model and ovsdb packages (source importer), and for every column the tagged struct field has, after resolving aliases, "
                 "exactly the type string of ovsdb.NativeType(column); with extended generation and enum types independently on/off. "
                 "TestC20Compiled (batches of 4-10 packages): the real cmd/modelgen binary built from /repo generates each package twice into two "
